@@ -683,20 +683,47 @@ def rule_no_global_state(rep, res, entry=None, rule="R-PURITY"):
     return n
 
 
-def rule_effect_free(rep, res, entry=None, allowed=(), rule="R-EFFECT"):
-    """a query writes no field of the estimator (transitively through self. calls)"""
+def rule_effect_free(rep, res, entry=None, allowed=(), rule="R-EFFECT", reg=None, what=None):
+    """a query leaves the answers to later queries unchanged: it writes no REGISTERED field of the estimator (transitively through
+    self. calls).  A field the specification does not declare (a cache introduced later) may be written by a query only if every
+    registration that changes something the cached value was computed from also resets that field (`reg`: {registration: write set});
+    then the check is UNDECIDED (whether the cache key covers the query's arguments is not decided), otherwise it is stale after that
+    registration and VIOLATED."""
     entry = entry or res.entry
-    writes = sorted({ev.d["attr"] for ev in res.events("self_store")} - set(allowed))
     evs = [ev for ev in res.events("self_store") if ev.d["attr"] not in allowed]
-    if evs:
-        for ev in evs[:3]:
-            rep.violated(rule, "query leaves the estimator unchanged", where=ev.loc, construct=ev.text(), entry=entry,
-                         config=res.config, msg=f"a query stores into self.{ev.d['attr']}: later answers depend on the history of queries")
-    else:
+    writes = sorted({ev.d["attr"] for ev in evs})
+    if not evs:
         rep.holds(rule, "query leaves the estimator unchanged", where=res.fn.loc(), construct=f"write set of {res.fn.name}",
                   entry=entry, config=res.config, msg="write set = ∅")
+        return writes
+    declared = set(getattr(res, "self_fields_declared", ()) or ())
+    by_attr = {}
+    for ev in evs:
+        by_attr.setdefault(ev.d["attr"], []).append(ev)
+    for attr, es in sorted(by_attr.items()):
+        ev = es[0]
+        is_cache = reg is not None and attr.startswith("_") and attr not in declared and all(
+            (e.d.get("val") is None or not e.d["val"].flat().tag("registered_value")) for e in es)
+        if not is_cache:
+            rep.violated(rule, "query leaves the estimator unchanged", where=ev.loc, construct=ev.text(), entry=entry, config=res.config,
+                         msg=(f"{what}, yet it " if what else "a query ") + f"stores into self.{attr}: later answers depend on the history of queries")
+            continue
+        deps = set()
+        for e in es:
+            v = e.d.get("val")
+            if v is not None:
+                deps |= {o[5:] for o in v.flat().deps_all() if o.startswith("self.") and o[5:] != attr}
+        stale = sorted(r for r, ws in reg.items() if (ws & deps) and attr not in ws)
+        if stale:
+            rep.violated(rule, "query leaves the estimator unchanged", where=ev.loc, construct=ev.text(), entry=entry, config=res.config,
+                         msg=(f"{what}: it " if what else "a query ") + f"caches a value computed from {sorted(deps)} in self.{attr}, "
+                             f"but {', '.join(stale)} — which change{'s' if len(stale) == 1 else ''} what it was computed from — "
+                             f"do{'es' if len(stale) == 1 else ''} not reset self.{attr}: after such a registration later queries are answered from the stale value")
+        else:
+            rep.undecided(rule, "query leaves the estimator unchanged", where=ev.loc, construct=ev.text(), entry=entry, config=res.config,
+                          msg=f"self.{attr} is a cache of a value computed from {sorted(deps)}; every registration that writes one of them also "
+                              f"resets it — whether its key covers the query's arguments is not decided")
     return writes
-
 
 def near(ev):
     """the event happens in the entry function itself or in a PRIVATE helper (`_name`) of the entry's own module / class that the
